@@ -4,6 +4,7 @@ import (
 	"fmt"
 	"math"
 	"math/big"
+	"strings"
 	"sync/atomic"
 
 	"verifmc/internal/ev"
@@ -416,11 +417,30 @@ func runC19(c *Ctx) {
 		cfg := cfg
 		depth, ll := 3, 3
 		if q {
-			depth, ll = 2, 2
+			ll = 2 // quick: depth 2 is always completed; depth 3 is expanded until the per-configuration budget ends
 		}
 		b := &explore.BFS[*WB]{Name: cfg.Name, New: newWB(cfg), Ops: opsBSI(cfg, q), MaxDepth: depth, Key: keyBSI,
 			Check: func(w *WB) *ev.Fail { return checkBSI(cfg, w, ll, &evals) }}
-		b.Deadline = c.Budget(22*(i+1), 340*(i+1))
+		b.Deadline = c.Budget(8*(i+1), 340*(i+1))
+		scs = append(scs, b)
+	}
+	// tiny alphabets without the value-growing operations: the closure is finite, all histories of any length
+	for i, cfg := range bsiConfigs(true)[:3] {
+		cfg := cfg
+		cfg.Name += " (2 columns x 3 values, fixpoint)"
+		cfg.Cols = cfg.Cols[:2]
+		cfg.Vals = []int64{cfg.Vals[0], cfg.Vals[2], cfg.Vals[len(cfg.Vals)-3]}
+		cfg.Bigs = nil
+		var ops []opB
+		for _, o := range opsBSI(cfg, true) {
+			if strings.HasPrefix(o.Name, "Increment") || strings.HasPrefix(o.Name, "Add(") || strings.Contains(o.Name, "2^40") || strings.Contains(o.Name, "103:0") {
+				continue
+			}
+			ops = append(ops, o)
+		}
+		b := &explore.BFS[*WB]{Name: cfg.Name, New: newWB(cfg), Ops: ops, Key: keyBSI,
+			Check: func(w *WB) *ev.Fail { return checkBSI(cfg, w, 2, &evals) }}
+		b.Deadline = c.Budget(60+10*i, 1700+30*i)
 		scs = append(scs, b)
 	}
 	c.R.Assume("values stay within the range the index was created or auto-sized for; Increment/Add are applied only when every stored value is non-negative (the property's stated domain)")
